@@ -62,3 +62,5 @@ Proof.
 Qed.
 Lemma all_after_exact_as a o n v : v = a + (n - o) -> all_after exact a o n = Ok v.
 Proof. intros ->. apply all_after_exact. Qed.
+Lemma gez_unwrap_nn s q : 0 <= q -> gez_unwrap s q = Ok q.
+Proof. intros H. unfold gez_unwrap. destruct (Qcleb_spec 0 q) as [_|N]; [reflexivity | contradiction]. Qed.
